@@ -245,25 +245,28 @@ Proof.
 Qed.
 
 (* ------------------------------------------------------------------ histories on one node *)
-(* every Process step is accepted under the signer in force when it ran; Rotate(nil) is observed refused, every other
-   Rotate accepted, and it changes the signer in force *)
+(* every Process step is accepted under the configuration in force when it ran; Rotate(nil) is observed refused, every other
+   Rotate accepted, and it changes the signer in force; an assignment to the node's exported fields changes the configuration
+   in force from the next call on *)
 Inductive hist_accepted : kcfg -> list hstep -> Prop :=
 | ha_nil : forall k, hist_accepted k []
 | ha_proc : forall k c rest, ce_accepted (set_cfg c k) -> hist_accepted k rest -> hist_accepted k (HProc c :: rest)
 | ha_rot : forall k s tag err rest,
     err = (s =? 0) -> hist_accepted (if s =? 0 then k else with_signer k s tag) rest ->
-    hist_accepted k (HRot s tag err :: rest).
+    hist_accepted k (HRot s tag err :: rest)
+| ha_set : forall k k' rest, hist_accepted k' rest -> hist_accepted k (HSet k' :: rest).
 
 Theorem run_hist_nil_iff : forall steps k i, run_hist k i steps = [] <-> hist_accepted k steps.
 Proof.
   induction steps as [|st rest IH]; intros k i; [split; [constructor|reflexivity]|].
-  destruct st as [c|s tag err]; cbn [run_hist].
+  destruct st as [c|s tag err|k']; cbn [run_hist].
   - rewrite app_nil_iff, map_nil_iff, run_ce_nil_iff, IH. split.
     + intros [H1 H2]. constructor; assumption.
     + intros H. inversion H; auto.
   - rewrite app_nil_iff, ite_nil_iff, IH. split.
     + intros [H1 H2]. constructor; [apply Bool.eqb_prop in H1; exact H1|exact H2].
-    + intros H. inversion H as [| |? ? ? ? ? E H2]; subst. split; [apply Bool.eqb_reflx|exact H2].
+    + intros H. inversion H as [| |? ? ? ? ? E H2|]; subst. split; [apply Bool.eqb_reflx|exact H2].
+  - rewrite IH. split; [intros H; constructor; exact H|intros H; inversion H; assumption].
 Qed.
 
 (* ------------------------------------------------------------------ whole shards *)
